@@ -155,6 +155,69 @@ def _eq_cell(a, b, nest, exact):
     return e1 == want and e2 == want and pos == want and pos2 == want and neg == (not want)
 
 
+SPECIAL = [float("inf"), float("-inf"), 1.0, 1.0004, 0, 1e308, -1e308, 3]
+
+
+def eq_special(a0: bool, a1: bool, a2: bool, b0: bool, b1: bool, b2: bool, n0: bool, n1: bool, none_delta: bool) -> bool:
+    """
+    The ends of the float range and the documented `delta=None` (= the default delta): operands from
+    {inf, -inf, 1.0, 1.0004, 0, 1e308, -1e308, 3}, raw / in a list / as a dict value, delta given or None:
+    equal exactly when a == b or |a - b| < 0.001; symmetric; assert_equal / assert_not_equal complementary.
+
+    pre: True
+    post: _
+    """
+    if tick():
+        return True
+    a, b, nest = SPECIAL[bits(a0, a1, a2)], SPECIAL[bits(b0, b1, b2)], bits(n0, n1)
+    if nest == 3:
+        return True
+    none_delta = True if none_delta else False
+    from crosshair.tracers import NoTracing
+    with NoTracing():
+        if isinstance(a, int) and isinstance(b, int):
+            want = a == b
+        else:
+            want = a == b or abs(a - b) < DELTA
+        xa, xb = [(a, b), ([a], [b]), ({"k": a}, {"k": b})][nest]
+        kw = {"exact_strings": False, "delta": None if none_delta else DELTA}
+        pos, pos2 = _passes(R.assert_equal, xa, xb, **kw), _passes(R.assert_equal, xb, xa, **kw)
+        neg = _passes(R.assert_not_equal, xa, xb, **kw)
+        return pos == want and pos2 == want and neg == (not want)
+
+
+SET_ELEMS = [1.0, 1.0004, 1.0008, 5.0]
+
+
+def eq_sets(a0: bool, a1: bool, a2: bool, a3: bool, b0: bool, b1: bool, b2: bool, b3: bool, frozen: bool) -> bool:
+    """
+    Sets (and frozensets) of floats next to the tolerance: every subset of {1.0, 1.0004, 1.0008, 5.0} against every other.
+    The verdict does not depend on the argument order, equal sets are equal, a set with an element that has no partner
+    within delta on the other side is not equal, assert_equal / assert_not_equal are complementary.
+
+    pre: True
+    post: _
+    """
+    if tick():
+        return True
+    xs = [e for e, on in zip(SET_ELEMS, (a0, a1, a2, a3)) if on]
+    ys = [e for e, on in zip(SET_ELEMS, (b0, b1, b2, b3)) if on]
+    frozen = True if frozen else False
+    from crosshair.tracers import NoTracing
+    with NoTracing():
+        x, y = (frozenset(xs), frozenset(ys)) if frozen else (set(xs), set(ys))
+        e1, e2 = equality_test(x, y, False, DELTA), equality_test(y, x, False, DELTA)
+        pos, neg = _passes(R.assert_equal, x, y, exact_strings=False, delta=DELTA), _passes(R.assert_not_equal, x, y, exact_strings=False, delta=DELTA)
+        if e1 != e2 or pos != e1 or neg == pos:
+            return False
+        if x == y and not e1:
+            return False
+        lonely = (any(all(abs(p - q) >= DELTA for q in y) for p in x) or any(all(abs(p - q) >= DELTA for q in x) for p in y))
+        if lonely and e1:
+            return False
+        return True
+
+
 Scalar = Union[int, bool, str, None]
 
 
